@@ -400,6 +400,19 @@ func (g *gen) genSmallest() {
 			}
 		}
 	}
+	// Aztec: dense sweep of short payloads (every length) — covers the compact 64-data-word limit and the
+	// compact/full-range transitions exactly, for low and high percentages
+	for _, pct := range []int{0, 5, 10, 15, 16, 17, 23, 33, 50} {
+		for n := 1; n <= g.n(140, 260); n++ {
+			if !g.thorough() && pct%5 != 0 && n%3 != 0 {
+				continue
+			}
+			g.emit("aztec.min %s %d", hx(g.str("ABCDEFGHIJKLMNOPQRSTUVWXYZ", n)), pct)
+			if n%2 == 0 {
+				g.emit("aztec.min %s %d", hx(g.str(digits, n+n/4)), pct)
+			}
+		}
+	}
 	// Aztec: automatic size vs. every smaller explicit request (op aztec.min), payloads across every layer boundary
 	for _, pct := range []int{0, 23, 33, 100} {
 		for n := 0; n < g.n(40, 200); n++ {
